@@ -293,27 +293,27 @@ fn reconcile_case(kind: u8, n_blocks: u8, fail_sel: u8) {
     kani::assert(task.normal_production_calls.get() == (if !port_fails && kind == 1 { 1 } else { 0 }), "[C24.poa-time.reconcile.blocks-are-produced-only-as-reconciled-leader]");
 }
 
-//@ harness kind=bounded tier=thorough bound="at most 2 blocks to reconcile per call" timeout=3600 extra="-Z async-lib --default-unwind 4"
+//@ harness kind=bounded tier=thorough bound="at most 2 blocks to reconcile per call" heavy=1 timeout=3600 extra="-Z async-lib --default-unwind 4"
 #[cfg(kani)]
 #[kani::proof]
 fn c24_reconcile_follower() { reconcile_case(0, 0, 0); }
-//@ harness kind=bounded tier=thorough bound="at most 2 blocks to reconcile per call" timeout=3600 extra="-Z async-lib --default-unwind 4"
+//@ harness kind=bounded tier=thorough bound="at most 2 blocks to reconcile per call" heavy=1 timeout=3600 extra="-Z async-lib --default-unwind 4"
 #[cfg(kani)]
 #[kani::proof]
 fn c24_reconcile_leader() { reconcile_case(1, 0, 0); }
-//@ harness kind=bounded tier=thorough bound="at most 2 blocks to reconcile per call" timeout=3600 extra="-Z async-lib --default-unwind 4"
+//@ harness kind=bounded tier=thorough bound="at most 2 blocks to reconcile per call" heavy=1 timeout=3600 extra="-Z async-lib --default-unwind 4"
 #[cfg(kani)]
 #[kani::proof]
 fn c24_reconcile_one_block() { reconcile_case(2, 1, kani::any::<u8>() % 2); }
-//@ harness kind=bounded tier=quick bound="at most 2 blocks to reconcile per call" timeout=3000 extra="-Z async-lib --default-unwind 4"
+//@ harness kind=bounded tier=thorough bound="at most 2 blocks to reconcile per call" heavy=1 timeout=3000 extra="-Z async-lib --default-unwind 4"
 #[cfg(kani)]
 #[kani::proof]
 fn c24_reconcile_two_blocks_all_imports_succeed() { reconcile_case(2, 2, 0); }
-//@ harness kind=bounded tier=quick bound="at most 2 blocks to reconcile per call" timeout=3000 extra="-Z async-lib --default-unwind 4"
+//@ harness kind=bounded tier=quick bound="at most 2 blocks to reconcile per call" heavy=1 timeout=3000 extra="-Z async-lib --default-unwind 4"
 #[cfg(kani)]
 #[kani::proof]
 fn c24_reconcile_two_blocks_first_import_fails() { reconcile_case(2, 2, 1); }
-//@ harness kind=bounded tier=quick bound="at most 2 blocks to reconcile per call" timeout=3000 extra="-Z async-lib --default-unwind 4"
+//@ harness kind=bounded tier=thorough bound="at most 2 blocks to reconcile per call" heavy=1 timeout=3000 extra="-Z async-lib --default-unwind 4"
 #[cfg(kani)]
 #[kani::proof]
 fn c24_reconcile_two_blocks_second_import_fails() { reconcile_case(2, 2, 2); }
